@@ -25,6 +25,7 @@ import PhQVerif.Checkers
 import PhQVerif.Generated.All
 import PhQVerif.Generated.Obl_SameFormula
 import PhQVerif.Theory.RelErr
+import PhQVerif.Props.C05
 
 namespace PhQVerif.Props.C18
 open PhQVerif Generated
@@ -227,6 +228,16 @@ def definitions : List Entry :=
    f32.«Time::ctor(Frequency)», f64.«Time::ctor(Frequency)», f80.«Time::ctor(Frequency)»,
    f32.«TotalKinematicPressure::ctor(StaticKinematicPressure,DynamicKinematicPressure)», f64.«TotalKinematicPressure::ctor(StaticKinematicPressure,DynamicKinematicPressure)», f80.«TotalKinematicPressure::ctor(StaticKinematicPressure,DynamicKinematicPressure)»,
    f32.«TotalPressure::ctor(StaticPressure,DynamicPressure)», f64.«TotalPressure::ctor(StaticPressure,DynamicPressure)», f80.«TotalPressure::ctor(StaticPressure,DynamicPressure)»]
+
+/-- **C18 (rearrangements).** A definition the library also offers solved for one of its arguments (a
+length, a speed, a viscosity … from a Reynolds number; a speed from a Mach number; `cv` from `R` and
+`γ`; …) is the textbook rearrangement: composed with the tabled definition it returns the original
+argument, for all positive inputs in the domain. This is C05's theorem, read for the pairs one side of
+which is a definition of this table (a pair's `id` is `"g ∘ f"`); it is restated here so that a wrong
+rearrangement of a tabled definition fails this property's check as well. -/
+theorem rearrangements_invert_the_definitions :
+    ∀ p ∈ InversePairs.rows, (∃ d ∈ definitions, (p.id.splitOn d.id).length > 1) → InverseOn p :=
+  fun p hp _ => C05.inverse_pairs p hp
 
 /-- The largest rounding count among the output slots of `e` that lie in the positive fragment
 (inputs, positive literals, `×`, `÷`, `+`, `√`, integer powers, conversions). -/
